@@ -134,6 +134,18 @@ CHECKS = {
         "Finite grids; SciPy nnls failures (max iterations / singular normal equations) are counted as out of domain.",
         "DESIGN.md section 4 / C01",
     ),
+    "C04": (
+        "exploration",
+        "E1",
+        "exhaustive enumeration of all compartmental structures (every subset of the N^2 K-matrix entries, N<=3; N=4 "
+        "bounded) x rate patterns x excitations x declaration orders x K-matrix splits; oracle = matrix exponential",
+        "Every K-matrix structure with up to 3 compartments is evaluated through the real decay megacomplexes for every "
+        "excited subset, normalisation mode, declaration order and K-matrix split and compared with expm(K t) j computed "
+        "independently (Pade); sequential/parallel megacomplexes against the equivalent K; result-level rates, lifetimes, "
+        "A-matrix, DAS and K-matrix identities.",
+        "Spectra with complex or nearly degenerate eigenvalues are outside the property (counted out of domain).",
+        "DESIGN.md section 4 / C04",
+    ),
 }
 
 PENDING_REASON = "check under construction in this round - not claimed until its check runs clean on the unchanged tree"
@@ -174,7 +186,7 @@ def main():
             "add_only": True,
         },
         "engines": [
-            {"name": "E1", "path": "vf/core.py", "serves_properties": ["C01", "C02", "C03", "C08", "C09", "C11", "C13"], "kind_free_text": "bounded exhaustive input-space enumeration with reference oracles, 16 workers"},
+            {"name": "E1", "path": "vf/core.py", "serves_properties": ["C01", "C02", "C03", "C04", "C08", "C09", "C11", "C13"], "kind_free_text": "bounded exhaustive input-space enumeration with reference oracles, 16 workers"},
             {"name": "E2", "path": "vf/explore.py", "serves_properties": ["C10", "C12", "C19"], "kind_free_text": "explicit-state BFS over event histories replayed on fresh real objects, full-state digests"},
             {"name": "E3", "path": "vf/checks/c15.py", "serves_properties": ["C15"], "kind_free_text": "deviation-bounded fault enumerator (all single / pairs of deviations from the fault-free environment), forked watchdog"},
             {"name": "E5", "path": "vf/prange.py", "serves_properties": ["C10"], "kind_free_text": "partial-order (conflict relation) exploration of numba prange kernels on py_func with recording array proxies"},
